@@ -86,7 +86,7 @@ bool nontrivial_diag(const c18::DiagInfo& d) { return d.iv.size() >= 3 && d.over
 void values_case(vh::Case& c) {
   vh::Rng& r = c.rng;
   Origin o = pick_origin(r);
-  c18::GenOpts go; go.R = 32; go.max_m = 12;
+  c18::GenOpts go; go.R = 32; go.max_m = (c.thorough && r.chance(1, 5)) ? 20 : 12;
   c18::DiagInfo di = c18::gen_diagram(r, go);
   Diagram D = c18::to_coords(di, o.origin, o.step);
   c18::count_classes(c, di);
@@ -100,22 +100,29 @@ void values_case(vh::Case& c) {
   std::vector<double> knots = f.knots();
   std::vector<double> xs = with_random_points(r, lsdef::eval_points(f), o, go.R, 6);
   c.log("construct; evaluate " + vh::str(xs.size()) + " points x " + vh::str(m + 2) + " levels");
-  if (!check_values(c, L, xs, knots, m, [&](double x) { return lsdef::levels_at(D, x); }, "exact.value", cls)) return;
+  // every block below is a pure query of L: a mismatch in one block does not invalidate the others, so all blocks run
+  // (each stops at its own first mismatch)
+  bool ok = check_values(c, L, xs, knots, m, [&](double x) { return lsdef::levels_at(D, x); }, "exact.value", cls);
 
+  ok = [&]() -> bool {
   // integrals, every overload
   c.log("integrals");
   double tot1 = 0;
   for (size_t k = 0; k < m + 2; ++k) {
     double want = lsdef::integral_level(f, k);
     tot1 += want;
-    if (!check_scalar(c, L.compute_integral_of_a_level_of_a_landscape(k), want, kIntTol, "exact.integral_level", cls, "integral of level " + vh::str(k))) return;
-    if (!check_scalar(c, L.project_to_R((int)k), want, kIntTol, "exact.project_to_R", cls, "project_to_R(" + vh::str(k) + ")")) return;
+    if (!check_scalar(c, L.compute_integral_of_a_level_of_a_landscape(k), want, kIntTol, "exact.integral_level", cls, "integral of level " + vh::str(k))) return false;
+    if (!check_scalar(c, L.project_to_R((int)k), want, kIntTol, "exact.project_to_R", cls, "project_to_R(" + vh::str(k) + ")")) return false;
   }
-  if (!check_scalar(c, L.compute_integral_of_landscape(), tot1, kIntTol, "exact.integral", cls, "compute_integral_of_landscape()")) return;
+  if (!check_scalar(c, L.compute_integral_of_landscape(), tot1, kIntTol, "exact.integral", cls, "compute_integral_of_landscape()")) return false;
   for (int p = 1; p <= 3; ++p)
     if (!check_scalar(c, L.compute_integral_of_landscape((double)p), lsdef::integral_pow_all(f, p), kIntTol, "exact.integral_p",
-                      cls + ",p=" + vh::str(p), "compute_integral_of_landscape(p=" + vh::str(p) + ")")) return;
+                      cls + ",p=" + vh::str(p), "compute_integral_of_landscape(p=" + vh::str(p) + ")")) return false;
 
+    return true;
+  }() && ok;
+
+  ok = [&]() -> bool {
   // vectorize: a list of values taken by level k; its largest entry is the supremum of the level
   c.log("vectorize / maximum");
   for (size_t k = 0; k < L.size() && k < L.number_of_vectorize_functions(); ++k) {
@@ -126,11 +133,15 @@ void values_case(vh::Case& c) {
     c.count("cmp.exact.vectorize");
     if (!in_range || !c18::close(mx, sup, kValTol)) {
       c.violation("exact.vectorize", cls, "vectorize(" + vh::str(k) + ") = " + vh::vstr(v) + " but sup of the level is " + vh::str(sup));
-      return;
+      return false;
     }
   }
-  if (!check_scalar(c, L.compute_maximum(), lsdef::sup_level(f, 0), kValTol, "exact.maximum", cls, "compute_maximum()")) return;
+  if (!check_scalar(c, L.compute_maximum(), lsdef::sup_level(f, 0), kValTol, "exact.maximum", cls, "compute_maximum()")) return false;
 
+    return true;
+  }() && ok;
+
+  ok = [&]() -> bool {
   // constructor that builds only the first nl levels: those levels must still be the definition
   if (m >= 1 && r.chance(1, 2)) {
     size_t nl = 1 + r.below(m + 1);
@@ -145,12 +156,15 @@ void values_case(vh::Case& c) {
         if (!c18::close(got, want[k], kValTol)) {
           c.violation("exact.value_limited_levels", cls + ",at=" + point_class(knots, x),
                       "number_of_levels=" + vh::str(nl) + " level " + vh::str(k) + " at x=" + vh::str(x) + ": got " + vh::str(got) + " want " + vh::str(want[k]));
-          return;
+          return false;
         }
       }
     }
   }
-  if (nontrivial_diag(di)) c.nontrivial(vh::hash_str(vh::G().history));
+    return true;
+  }() && ok;
+
+  if (ok && nontrivial_diag(di)) c.nontrivial(vh::hash_str(vh::G().history));
   c.sample("{\"history\":\"" + vh::jesc(vh::G().history.substr(0, 600)) + "\"}");
 }
 
@@ -200,28 +214,29 @@ void algebra_case(vh::Case& c) {
   Fn f0(t.D[0]), f1(t.D[1]), f2(t.D[2]);
   const Origin& o = t.o;
 
+  bool ok = true;   // sections are independent pure observations: all run, each stops at its first mismatch
   c.log("L0 + L1"); c.count("op.plus");
   Persistence_landscape S = L0 + L1;
-  if (!check_fn(c, S, lsdef::plus(f0, f1), false, "exact.plus", cls, r, o)) return;
-  if (!check_scalar(c, S.compute_integral_of_landscape(), lsdef::integral_all(lsdef::plus(f0, f1)), kIntTol, "exact.integral_of_result", cls + ",op=plus", "integral of L0+L1")) return;
+  ok = check_fn(c, S, lsdef::plus(f0, f1), false, "exact.plus", cls, r, o) && ok;
+  ok = check_scalar(c, S.compute_integral_of_landscape(), lsdef::integral_all(lsdef::plus(f0, f1)), kIntTol, "exact.integral_of_result", cls + ",op=plus", "integral of L0+L1") && ok;
 
   c.log("L0 - L1"); c.count("op.minus");
   Persistence_landscape Df = L0 - L1;
   Fn fd = lsdef::minus(f0, f1);
-  if (!check_fn(c, Df, fd, false, "exact.minus", cls, r, o)) return;
-  if (!check_scalar(c, Df.compute_integral_of_landscape(), lsdef::integral_all(fd), kIntTol, "exact.integral_of_result", cls + ",op=minus", "integral of L0-L1")) return;
-  if (!check_scalar(c, Df.compute_integral_of_landscape(2.0), lsdef::integral_pow_all(fd, 2), kIntTol, "exact.integral_of_result", cls + ",op=minus,p=2", "integral of (L0-L1)^2")) return;
+  ok = check_fn(c, Df, fd, false, "exact.minus", cls, r, o) && ok;
+  ok = check_scalar(c, Df.compute_integral_of_landscape(), lsdef::integral_all(fd), kIntTol, "exact.integral_of_result", cls + ",op=minus", "integral of L0-L1") && ok;
+  ok = check_scalar(c, Df.compute_integral_of_landscape(2.0), lsdef::integral_pow_all(fd, 2), kIntTol, "exact.integral_of_result", cls + ",op=minus,p=2", "integral of (L0-L1)^2") && ok;
 
   double a = kScalars[r.below(10)], b = kScalars[r.below(10)];
   c.log("L0 * " + vh::str(a) + " ; " + vh::str(b) + " * L1"); c.count("op.times", 2);
   Persistence_landscape M1 = L0 * a, M2 = b * L1;
-  if (!check_fn(c, M1, lsdef::scaled(f0, a), false, "exact.times", cls, r, o)) return;
-  if (!check_fn(c, M2, lsdef::scaled(f1, b), false, "exact.times", cls, r, o)) return;
+  ok = check_fn(c, M1, lsdef::scaled(f0, a), false, "exact.times", cls, r, o) && ok;
+  ok = check_fn(c, M2, lsdef::scaled(f1, b), false, "exact.times", cls, r, o) && ok;
 
   c.log("abs(L0 - L1)"); c.count("op.abs");
   Persistence_landscape A = Df.abs();
-  if (!check_fn(c, A, fd, true, "exact.abs", cls, r, o)) return;
-  if (!check_scalar(c, A.compute_integral_of_landscape(), lsdef::norm_p(fd, 1), kIntTol, "exact.integral_of_result", cls + ",op=abs", "integral of |L0-L1|")) return;
+  ok = check_fn(c, A, fd, true, "exact.abs", cls, r, o) && ok;
+  ok = check_scalar(c, A.compute_integral_of_landscape(), lsdef::norm_p(fd, 1), kIntTol, "exact.integral_of_result", cls + ",op=abs", "integral of |L0-L1|") && ok;
 
   // compound assignments:  T = L0; T += L1; T -= L2; T *= a; T /= q
   static const double kDiv[] = {2.0, -4.0, 0.5, 1.0, 8.0};
@@ -229,10 +244,10 @@ void algebra_case(vh::Case& c) {
   c.log("T=L0; T+=L1; T-=L2; T*=" + vh::str(a) + "; T/=" + vh::str(q)); c.count("op.compound");
   Persistence_landscape T = L0; T += L1; T -= L2; T *= a; T /= q;
   Fn ft = lsdef::scaled(lsdef::minus(lsdef::plus(f0, f1), f2), a / q);
-  if (!check_fn(c, T, ft, false, "exact.compound_assign", cls, r, o)) return;
+  ok = check_fn(c, T, ft, false, "exact.compound_assign", cls, r, o) && ok;
   c.log("abs(T)"); c.count("op.abs");
   Persistence_landscape AT = T.abs();
-  if (!check_fn(c, AT, ft, true, "exact.abs", cls, r, o)) return;
+  ok = check_fn(c, AT, ft, true, "exact.abs", cls, r, o) && ok;
 
   // averages of 1..5 landscapes (with repetitions)
   int n = 1 + (int)r.below(5);
@@ -243,16 +258,16 @@ void algebra_case(vh::Case& c) {
   Persistence_landscape Av;
   if (r.chance(1, 2)) Av = L2;   // compute_average must overwrite whatever was stored
   Av.compute_average(ptrs);
-  if (!check_fn(c, Av, fav, false, "exact.average", cls + ",n=" + std::string(n == 1 ? "1" : n == 2 ? "2" : "3+"), r, o)) return;
+  ok = check_fn(c, Av, fav, false, "exact.average", cls + ",n=" + std::string(n == 1 ? "1" : n == 2 ? "2" : "3+"), r, o) && ok;
 
   // new_abs(): same contract as abs(), result on the heap.  Last, because it is the least used entry point.
   c.log("new_abs(L0 - L1)"); c.count("op.new_abs");
   {
     std::unique_ptr<Persistence_landscape> NA(Df.new_abs());
-    if (!check_fn(c, *NA, fd, true, "exact.new_abs", cls, r, o)) return;
+    ok = check_fn(c, *NA, fd, true, "exact.new_abs", cls, r, o) && ok;
   }
 
-  if (nontrivial_diag(t.di[0]) && nontrivial_diag(t.di[1])) c.nontrivial(vh::hash_str(vh::G().history));
+  if (ok && nontrivial_diag(t.di[0]) && nontrivial_diag(t.di[1])) c.nontrivial(vh::hash_str(vh::G().history));
   c.sample("{\"history\":\"" + vh::jesc(vh::G().history.substr(0, 700)) + "\"}");
 }
 
